@@ -126,7 +126,9 @@ pub fn run(seed: u64, n: usize, out: &mut Out, tier: &str) {
         // the same answers through a one-rule engine (where the rule has to be found by its tokens first):
         // a pattern that matches per rule but is filed under a token the URL does not produce is lost there
         if imp != "R" && !line.starts_with("@@") && parse_all(&[line.clone()]).len() == 1 {
-            let e = adblock::Engine::from_rules_parametrised(&[line.clone()], Default::default(), true, false);
+            let mut e = adblock::Engine::from_rules_parametrised(&[line.clone()], Default::default(), true, false);
+            // (compiled regexes are dropped at every query: every answer but the first comes from a rebuilt one)
+            e.set_regex_discard_policy(adblock::regex_manager::RegexManagerDiscardPolicy { cleanup_interval: std::time::Duration::from_nanos(1), discard_unused_time: std::time::Duration::from_nanos(0) });
             for (i, q) in reqs.iter().enumerate() {
                 let v = e.check_network_request(&q.req);
                 let hit = v.matched || v.exception.is_some();
